@@ -1270,7 +1270,7 @@ class FCN(object):
             batch = self.batch
         g, h = self.get_grad_hessp(x, p, batch)
         constr_grad = self.gauss_constr.get_constrain_grad()
-        constr_hessian = 0.0  # self.gauss_constr.get_constrain_hessp(p)
+        constr_hessian = np.dot(self.gauss_constr.get_constrain_hessian(), p)
         return g + constr_grad, h + constr_hessian
 
     def get_grad_hessp(self, x, p, batch):
@@ -1425,7 +1425,8 @@ class CombineFCN(object):
     def grad_hessp(self, x, p, batch=None):
         grad, hessp = self.get_grad_hessp(x, p, batch)
         constr_grad = self.gauss_constr.get_constrain_grad()
-        return grad + constr_grad, hessp
+        constr_hessian = np.dot(self.gauss_constr.get_constrain_hessian(), p)
+        return grad + constr_grad, hessp + constr_hessian
 
 
 class MixLogLikehoodFCN(CombineFCN):
